@@ -17,6 +17,18 @@ static void op_preinv2(int argc, char **argv)
   (void)argc; mp_limb_t nh = arg_ul(argv[1]), nl = arg_ul(argv[2]), d = arg_ul(argv[3]), di, q, r;
   invert_limb(di, d); udiv_qrnnd_preinv2(q, r, nh, nl, d, di); outul(q); outul(r);
 }
+/* mpn_dc_div_qr_n n N(2n limbs) D(n limbs, normalised) : the divide-and-conquer routine called directly: qh, quotient, remainder */
+static void op_dc_div_qr_n(int argc, char **argv)
+{
+  (void)argc; mp_size_t n = arg_l(argv[1]);
+  mp_ptr np = gbuf_alloc(2 * n), dp = gbuf_alloc(n), qp = gbuf_alloc(n), tp = gbuf_alloc(n + 8);
+  parse_limbs(argv[2], np, 2 * n); parse_limbs(argv[3], dp, n);
+  mp_limb_t dinv; mpir_invert_pi1(dinv, dp[n - 1], dp[n - 2]);
+  mp_limb_t qh = mpn_dc_div_qr_n(qp, np, dp, n, dinv, tp);
+  outul(qh); out_limbs(qp, n); out_limbs(np, n);
+  if (!gbuf_ok(np, 2 * n) || !gbuf_ok(dp, n) || !gbuf_ok(qp, n) || !gbuf_ok(tp, n + 8)) outs("REDZONE");
+  gbuf_free(np); gbuf_free(dp); gbuf_free(qp); gbuf_free(tp);
+}
 static void op_invert_pi1(int argc, char **argv)
 { (void)argc; mp_limb_t d1 = arg_ul(argv[1]), d0 = arg_ul(argv[2]), v; mpir_invert_pi1(v, d1, d0); outul(v); }
 static void op_3by2(int argc, char **argv)
@@ -182,7 +194,7 @@ static void op_divcheck(int argc, char **argv) { (void)argc; (void)argv; outl(1)
 
 const op_t ops_div[] = {
   {"invert_limb", op_invert_limb}, {"udiv_preinv1", op_preinv1}, {"udiv_preinv2", op_preinv2},
-  {"invert_pi1", op_invert_pi1}, {"udiv_3by2", op_3by2},
+  {"invert_pi1", op_invert_pi1}, {"mpn_dc_div_qr_n", op_dc_div_qr_n}, {"udiv_3by2", op_3by2},
   {"mpn_divrem_1", op_divrem_1}, {"mpn_mod_1", op_mod_1}, {"mpn_tdiv_qr", op_tdiv_qr}, {"mpn_divrem", op_divrem},
   {"mpn_divexact_by3", op_divexact_by3},
   {"mpz_tdiv_qr", op_tdiv_qr_z}, {"mpz_fdiv_qr", op_fdiv_qr_z}, {"mpz_cdiv_qr", op_cdiv_qr_z},
